@@ -95,6 +95,10 @@ static int32_t traverse_schema_recursive(
         }
     }
 
+    /* Every node remembers its accumulated levels (schema node accessors) */
+    ((parquet_schema_element_t*)elem)->max_def_level = this_def;
+    ((parquet_schema_element_t*)elem)->max_rep_level = this_rep;
+
     if (elem->num_children == 0) {
         /* Leaf node - record the accumulated levels */
         ctx->max_def[ctx->leaf_idx] = this_def;
